@@ -425,6 +425,49 @@ func c03Drive(args []string) int {
 		directed = append(directed, `{"parser_settings": {"version": "omni.2.1", "file_format_type": "xml"}, "transform_declarations": {"FINAL_OUTPUT": {"xpath": `+jstr(xp)+`, "object": {"x": {"xpath": "b"}}}}}`)
 	}
 	directed = append(directed, `{"parser_settings": {"version": "omni.2.1", "file_format_type": "xml"}, "transform_declarations": {"FINAL_OUTPUT": {"xpath": "/r/a", "object": {"x": {"xpath": ".[b * 2 = 2]/b"}}}}}`)
+	// declarations nested deeper than any fixed-size structure of the readers (their stacks start with room for 10 levels)
+	for _, format := range []string{"fixedlength2", "csv2", "edi"} {
+		for _, depth := range []int{1, 2, 5, 9, 10, 11} {
+			var decl, in strings.Builder
+			for k := 1; k <= depth; k++ {
+				c := string(rune('a' + k - 1))
+				tgt := ""
+				if k == depth {
+					tgt = `, "is_target": true`
+				}
+				switch format {
+				case "fixedlength2":
+					decl.WriteString(`{"name": "L` + c + `", "header": "^` + c + `"` + tgt + `, "columns": [{"name": "c` + c + `", "start_pos": 2, "length": 2}]`)
+					in.WriteString(c + fmt.Sprintf("%02d\n", k))
+				case "csv2":
+					decl.WriteString(`{"name": "L` + c + `", "header": "^` + c + `,"` + tgt + `, "columns": [{"name": "c` + c + `", "index": 2}]`)
+					in.WriteString(c + fmt.Sprintf(",%02d\n", k))
+				default:
+					decl.WriteString(`{"name": "S` + c + `"` + tgt + `, "elements": [{"name": "c` + c + `", "index": 1}]`)
+					in.WriteString("S" + c + fmt.Sprintf("*%02d~", k))
+				}
+				if k < depth {
+					decl.WriteString(map[string]string{"fixedlength2": `, "child_envelopes": [`, "csv2": `, "child_records": [`, "edi": `, "child_segments": [`}[format])
+				}
+			}
+			for k := depth; k >= 1; k-- {
+				decl.WriteString("}")
+				if k > 1 {
+					decl.WriteString("]")
+				}
+			}
+			fd := map[string]string{"fixedlength2": `"envelopes": [` + decl.String() + `]`, "csv2": `"delimiter": ",", "records": [` + decl.String() + `]`,
+				"edi": `"segment_delimiter": "~", "element_delimiter": "*", "segment_declarations": [` + decl.String() + `]`}[format]
+			last := string(rune('a' + depth - 1))
+			ds := `{"parser_settings": {"version": "omni.2.1", "file_format_type": "` + format + `"}, "file_declaration": {` + fd + `},
+ "transform_declarations": {"FINAL_OUTPUT": {"object": {"deep": {"xpath": "c` + last + `"}, "top": {"xpath": "` + strings.Repeat("../", depth-1) + `ca"}}}}}`
+			body := in.String()
+			for _, input := range []string{body, body + body, body[:len(body)/2]} {
+				o := runRobust([]byte(ds), []byte(input))
+				record("directed-schema", fmt.Sprintf("nesting/%s/%d", format, depth), "declarations nested "+fmt.Sprint(depth)+" deep", []byte(ds), []byte(input), o)
+			}
+		}
+	}
 	for di, ds := range directed {
 		for _, in := range []string{"", "a,b\n", "<a><b>1</b></a>", `{"a": [1, 2]}`, "A*1~A*2~", "<r><a><b>1</b></a><a><b>2</b></a></r>"} {
 			record("directed-schema", fmt.Sprintf("directed/%d", di), "directed", []byte(ds), []byte(in), runRobust([]byte(ds), []byte(in)))
